@@ -20,8 +20,9 @@ def hook_commits():
 
 def main():
     checks, na = [], []
+    ready = set((VERIF / "harness" / "ready.txt").read_text().split())  # accepted by the coordinator after multi-seed runs
     for pid in ALL:
-        if not (VERIF / "harness" / "props" / f"{pid}.py").exists():
+        if pid not in ready or not (VERIF / "harness" / "props" / f"{pid}.py").exists():
             na.append({"property_id": pid, "reason": NA_REASONS.get(pid, DEFAULT_NA)})
             continue
         m = importlib.import_module(f"harness.props.{pid}").META
